@@ -107,7 +107,7 @@ func (fs DirFs) AtomicCreate(dir, fname string, data []byte) {
 	// The staging file is private to this call (concurrent calls, also for the
 	// same name in different directories, must not share it) and is truncated
 	// in case an interrupted earlier call left one behind.
-	tmpFile := fmt.Sprintf("%s.%d-%d.tmp", fname, os.Getpid(),
+	tmpFile := fmt.Sprintf(".%d-%d.tmp", os.Getpid(),
 		atomic.AddUint64(&tmpCounter, 1))
 	fd, err := unix.Openat(fs.rootFd, tmpFile,
 		unix.O_CREAT|unix.O_TRUNC|unix.O_WRONLY, 0644)
